@@ -60,7 +60,42 @@ func TestGovcReplay(t *testing.T) {
 		{{route: [2]string{"/u/:a", "GET"}}, {method: "GET", path: "/u/1"}, {method: "POST", path: "/u/leak"}},
 		{{route: [2]string{"/f/*", "GET"}}, {route: [2]string{"/g/:a", "GET"}}, {method: "GET", path: "/f/x/y"}, {method: "GET", path: "/g/7"}, {method: "GET", path: "/"}},
 	}
+	histories = append(histories,
+		[]govcStep{{route: [2]string{"/bbb/:a", "GET"}}, {method: "GET", path: "/bbb/10/zzz"}, {method: "GET", path: "/bbb/20"}},
+		[]govcStep{{route: [2]string{"/u/:a/p/:b", "GET"}}, {method: "GET", path: "/u/1/nope"}, {method: "GET", path: "/u/2/p/3/extra"}, {method: "GET", path: "/u/7/p/9"}},
+	)
 	found := 0
+	// a request whose handler panics must not leave anything behind for the next request; ids stay unique and
+	// constant while another request is served in between (nested ServeHTTP: two Stores live at once)
+	{
+		mux := govcMux([][2]string{{"/u/:a/:b", "GET"}, {"/ping", "GET"}})
+		mux.Handle("/boom/:x", "GET", func(s *Store) { s.W.WriteHeader(202); panic("boom") })
+		func() {
+			defer func() { recover() }()
+			mux.ServeHTTP(httptest.NewRecorder(), &http.Request{Method: "GET", URL: &url.URL{Path: "/boom/secret"}, Header: http.Header{}})
+		}()
+		for _, p := range []string{"/zzz", "/u/1/2", "/ping"} {
+			got := govcObserve(mux, "GET", p)
+			want := govcObserve(govcMux([][2]string{{"/u/:a/:b", "GET"}, {"/ping", "GET"}}), "GET", p)
+			if got != want {
+				found++
+				fmt.Printf("REPRODUCED obligation=%s: after a request whose handler panicked, GET %s observes %q, a fresh Mux observes %q\n", ob, p, got, want)
+			}
+		}
+		mux2 := NewMux()
+		var innerID, before, after string
+		mux2.Handle("/inner", "GET", func(s *Store) { innerID = string(append([]byte{}, s.GetID()...)) })
+		mux2.Handle("/outer", "GET", func(s *Store) {
+			before = string(append([]byte{}, s.GetID()...))
+			mux2.ServeHTTP(httptest.NewRecorder(), &http.Request{Method: "GET", URL: &url.URL{Path: "/inner"}, Header: http.Header{}})
+			after = string(append([]byte{}, s.GetID()...))
+		})
+		mux2.ServeHTTP(httptest.NewRecorder(), &http.Request{Method: "GET", URL: &url.URL{Path: "/outer"}, Header: http.Header{}})
+		if before != after || before == innerID {
+			found++
+			fmt.Printf("REPRODUCED obligation=%s: request id %q became %q while another request (id %q) was served\n", ob, before, after, innerID)
+		}
+	}
 	for hi, hist := range histories {
 		var routes [][2]string
 		var mux *Mux
